@@ -1233,7 +1233,8 @@ func runC15(args []string) int {
 	rep := newReport("C15", seed)
 	rep.Rule = "case = (endpoint of 5, required, fault mode per upstream, 1..3 upstreams) run against the real client (config.newFailoverGroup + promapi) with in-process fake upstreams: " +
 		"one direct FailoverGroup call and one real online check; the nine listed modes are enumerated (thorough: all 9+81+729 assignments x 5 endpoints; quick: all assignments in which every upstream is reached plus a rotating sample), " +
-		"extra modes (not judged by the oracle) exercise the classification table; non-trivial = at least one faulty upstream is contacted; distinct = (endpoint, required, mode names)"
+		"extra modes (not judged by the oracle) exercise the classification table; a second call on the same group follows (same behaviour, or — fault sequences — after the upstreams changed their HTTP-level behaviour); " +
+		"range queries use a fixed 2h-aligned window over one slice or three slices, the fault on every slice or on one slice only; non-trivial = at least one faulty upstream is contacted; distinct = (endpoint, required, mode names, second-call mode names, slice faults)"
 	cwd, _ := os.Getwd()
 	cases := c15Enumerate(tier, r, nExtra)
 
